@@ -88,7 +88,7 @@ func countN(evs []h.Ev) int {
 func ctxOutcome(r *h.Rec) string {
 	var sb strings.Builder
 	for _, en := range r.Log {
-		fmt.Fprintf(&sb, "%s[%v %v] ", en.Ev.Short(), en.Sub, en.Item)
+		fmt.Fprintf(&sb, "%s[%v %v %v] ", en.Ev.Short(), en.Sub, en.Item, en.Mid)
 	}
 	return sb.String()
 }
@@ -289,6 +289,45 @@ func c19Standalone(word []h.Ev) fw.Case {
 	}}
 }
 
+// stand-alone operators are transparent too: same trace and same context values on every notification
+// (values attached at SubscribeWithContext, per item by the source, and mid-pipeline upstream of the operator).
+func c19StandaloneTransparent(word []h.Ev, licence bool) fw.Case {
+	return fw.Case{Name: fmt.Sprintf("standalone-transparency/licence=%v:%s", licence, h.Word(word)), Make: func() fw.Instance {
+		var viol []fw.Violation
+		outcome := ""
+		body := func() {
+			roprometheus.SetLicenseBypassForVerification(licence)
+			defer roprometheus.SetLicenseBypassForVerification(false)
+			ops := []struct {
+				name string
+				op   func(ro.Observable[int]) ro.Observable[int]
+			}{
+				{"IncCounterOnNext", roprometheus.IncCounterOnNext[int](prometheus.NewCounter(prometheus.CounterOpts{Name: "n"}))},
+				{"IncCounterOnError", roprometheus.IncCounterOnError[int](prometheus.NewCounter(prometheus.CounterOpts{Name: "e"}))},
+				{"IncCounterOnComplete", roprometheus.IncCounterOnComplete[int](prometheus.NewCounter(prometheus.CounterOpts{Name: "c"}))},
+				{"IncCounterOnSubscription", roprometheus.IncCounterOnSubscription[int](prometheus.NewCounter(prometheus.CounterOpts{Name: "s"}))},
+				{"ObserveNextLag", roprometheus.ObserveNextLag[int](prometheus.NewSummary(prometheus.SummaryOpts{Name: "lag"}))},
+			}
+			ctx := context.WithValue(context.Background(), h.KeySub, "sub")
+			mid := func(o ro.Observable[int]) ro.Observable[int] {
+				return ro.ContextWithValue[int](h.KeyMid, "mid")(o)
+			}
+			for _, x := range ops {
+				ri, rp := h.NewRec("instrumented"), h.NewRec("plain")
+				x.op(mid(h.Script[int](h.NewSrc("i"), h.Unsafe, word))).SubscribeWithContext(ctx, h.Observer[int](ri))
+				mid(h.Script[int](h.NewSrc("p"), h.Unsafe, word)).SubscribeWithContext(ctx, h.Observer[int](rp))
+				outcome = ctxOutcome(ri)
+				if !h.SameTrace(ri.Events(), rp.Events()) {
+					viol = append(viol, fw.V("prom/"+x.name+"/transparency-trace/differs", fmt.Sprintf("source [%s]: with the operator [%s], without [%s]", h.Word(word), ri.Trace(), rp.Trace())))
+				} else if ctxOutcome(ri) != ctxOutcome(rp) {
+					viol = append(viol, fw.V("prom/"+x.name+"/transparency-context/differs", fmt.Sprintf("source [%s], licence=%v: context values [subscription item mid-pipeline] per notification: with the operator %s, without %s", h.Word(word), licence, ctxOutcome(ri), ctxOutcome(rp))))
+				}
+			}
+		}
+		return fw.Instance{Body: body, Outcome: func() string { return outcome }, Check: func(r *vrt.Result) []fw.Violation { return viol }}
+	}}
+}
+
 // two concurrent subscriptions of one instrumented pipeline
 func c19Concurrent(p promPipe, bound int) fw.Case {
 	word := []h.Ev{h.Nx(1), h.Nx(2), h.Co()}
@@ -371,6 +410,11 @@ func init() {
 		scns = append(scns, fw.Scenario{ID: "C19/standalone", Group: "standalone", Run: func(c *fw.Ctx) {
 			for _, w := range h.Words([]h.Ev{h.Nx(1), h.Er(h.ErrSrc), h.Co()}, 4) {
 				c.Explore(c19Standalone(w))
+			}
+			for _, w := range h.Legal([]interface{}{1, 2}, 2, []h.Kind{h.C, h.E}, true) {
+				for _, lic := range []bool{false, true} {
+					c.Explore(c19StandaloneTransparent(w, lic))
+				}
 			}
 		}})
 		return scns
